@@ -17,7 +17,7 @@ SeqToSet(q) == {q[i] : i \in DOMAIN q}
 
 \* JSON object -> state record of Repo.tla
 StateOf(j) ==
-  [ cfgc |-> j.cfgc, prof |-> j.prof, profp |-> j.profp, par |-> j.par, present |-> SeqToSet(j.present), cfgNewer |-> j.cfgNewer, mt |-> j.mt, art |-> j.art,
+  [ cfgc |-> j.cfgc, prof |-> j.prof, profp |-> j.profp, usesp |-> SeqToSet(j.usesp), par |-> j.par, present |-> SeqToSet(j.present), cfgNewer |-> j.cfgNewer, mt |-> j.mt, art |-> j.art,
     pc |-> "idle", plan |-> <<>>, pos |-> 0, flags |-> SeqToSet(j.flags), last |-> j.last ]
 
 \* pre.last / pre.flags are outputs of the previous step and irrelevant for what may happen next
